@@ -12,29 +12,6 @@ import (
 	proto "github.com/liftbridge-io/liftbridge/server/protocol"
 )
 
-// vLogDump returns (offset, epoch, value) of every message in the real partition log.
-func vLogDump(p *partition) []vM {
-	out := []vM{}
-	first := p.log.OldestOffset()
-	if first < 0 {
-		return out
-	}
-	rd, err := p.log.NewReader(first, true)
-	if err != nil {
-		return out
-	}
-	hb := make([]byte, 28)
-	for {
-		ctx, cancel := context.WithCancel(context.Background())
-		cancel()
-		m, off, _, ep, err := rd.ReadMessage(ctx, hb)
-		if err != nil {
-			return out
-		}
-		out = append(out, vM{"off": off, "ep": ep, "v": string(m.Value())})
-	}
-}
-
 func vAskLeaderOffset(v *vPart, epoch uint64) (int64, error) {
 	data, _ := proto.MarshalLeaderEpochOffsetRequest(&proto.LeaderEpochOffsetRequest{LeaderEpoch: epoch})
 	resp, err := v.nc.Request(v.p.getLeaderOffsetRequestInbox(), data, 2*time.Second)
